@@ -2,4 +2,6 @@ From Coq Require Import Extraction ExtrOcamlBasic.
 From Common Require Import Bytes Drv.
 From C28 Require Import Model.
 Extraction "model.ml" drv_b2n drv_n2b drv_z_of_n drv_n_of_z drv_nat_of_n drv_n_of_nat
-  fixed prefix mkCfg run check step_ok track ghost0 align_up zero_mem rsz order_of_size exempt is_live_ptr.
+  fixed prefix mkCfg run check step_ok track ghost0 align_up zero_mem rsz order_of_size exempt is_live_ptr
+  check_uncond uncond_ok is_call is_err max_wasm_pages
+  nil_marker header_size num_orders min_alloc max_alloc page_size.
